@@ -70,19 +70,41 @@ StepFails(st, e, c) ==
                    st.obs.within[k][2] = (st.obs.within[k][1] \in e.S))
     \o AnswerFails(st, e)
 
-RECURSIVE Walk(_, _, _)
-Walk(rec, k, s) ==
+\* ---- files and a second live region ------------------------------------------
+\* save_file / load_file use ONE .mim file per history; live_* calls act on a second
+\* region L (same depth) that stays alive during the history: regions are values,
+\* so L changes only through its own calls and S only through its own.
+DiskLiveOps == {"save_file", "load_file", "live_add", "union_live", "without_live", "live_union_self"}
+
+\* state of a history: <<S, disk, live>>
+Step3(st, s, dk, lv) ==
+    CASE st.op = "save_file" -> <<s, s, lv>>
+      [] st.op = "load_file" -> <<dk, dk, lv>>
+      [] st.op = "live_add" -> <<s, dk, lv \cup DescSet(SeqSet(st.pix), st.level, D)>>
+      [] st.op = "union_live" -> <<s \cup lv, dk, lv>>
+      [] st.op = "without_live" -> <<s \ lv, dk, lv>>
+      [] st.op = "live_union_self" -> <<s, dk, lv \cup s>>
+
+NormalisingDL == {"union_live", "without_live"}
+
+RECURSIVE Walk(_, _, _, _, _)
+Walk(rec, k, s, dk, lv) ==
     IF k > Len(rec.steps) THEN <<>>
     ELSE LET st == rec.steps[k]
-             c  == Call(st)
-             e  == Eff(s, c)
+             dl == st.op \in DiskLiveOps
+             c  == IF dl THEN [op |-> IF st.op \in NormalisingDL THEN "union" ELSE "save_load"] ELSE Call(st)
+             n3 == IF dl THEN Step3(st, s, dk, lv) ELSE <<Eff(s, c).S, dk, lv>>
+             e  == IF dl THEN [S |-> n3[1], ans |-> NoAnswer] ELSE Eff(s, c)
              F  == StepFails(st, e, c)
+                   \o (IF HasKey(st.obs, "live")
+                       THEN Clause("other_live_region_is_an_independent_value", SeqSet(st.obs.live) = n3[3])
+                       ELSE <<>>)
          IN IF F # <<>> THEN <<"step " \o ToString(k) \o " " \o st.op>> \o F
             ELSE IF HasKey(st, "post") /\ SeqSet(st.post) # e.S
                  THEN <<"step " \o ToString(k), "tlc_post_state_differs">>
-                 ELSE Walk(rec, k + 1, e.S)
+                 ELSE Walk(rec, k + 1, n3[1], n3[2], n3[3])
 
-Fails(rec) == IF rec.D # D THEN <<"wrong_depth_batch">> ELSE Walk(rec, 1, {})
+Fails(rec) == IF rec.D # D THEN <<"wrong_depth_batch">> ELSE Walk(rec, 1, {}, {}, {})
 
 Next == BatchNext(Fails) /\ UNCHANGED <<S, answer>>
 Spec == BatchInit /\ S = {} /\ answer = NoAnswer /\ [][Next]_<<pos, S, answer>>
